@@ -259,6 +259,19 @@ class CostProbe(object):
         return (_lookup_probe, (self.key,))
 
 
+def probe_for(cfg):
+    """the cost of a configuration as a probe; with cfg['extra_args'] the cost has the form cost(x, *ExtraArgs) and insists on being handed them"""
+    raw = make_cost(cfg['cost'])
+    probe = CostProbe(raw)
+    xa = tuple(cfg['extra_args']) if cfg.get('extra_args') else None
+    if xa:
+        def f(x, *args):
+            if args != xa: raise AssertionError('cost called with ExtraArgs %r, configured %r' % (args, xa))
+            return raw(x) + args[0]
+        probe.f = f; probe.always_args = True
+    return probe
+
+
 def fnum(v):
     try:
         return float(v)
